@@ -56,6 +56,8 @@ int main(int argc, char **argv) {
   double deadline = 0;
   if (const char *d = std::getenv("VERIF_DEADLINE_S")) deadline = atof(d);
   int wordSize = 100;
+  unsigned caseTimeout = 30;
+  if (const char *d = std::getenv("VERIF_CASE_TIMEOUT_S")) caseTimeout = atoi(d);
   auto start = std::chrono::steady_clock::now();
 
   Report R;
@@ -84,10 +86,12 @@ int main(int argc, char **argv) {
       }
     }
     publishCurrent(words);
+    alarm(caseTimeout);  // a case that does not end is killed: SIGALRM
     Tape t(words);
     R.failReason.clear();
     R.beginCase();
     bool good = prop(t, R);
+    alarm(0);
     if (!R.frozen && (R.evaluations & (R.evaluations - 1)) == 0)
       R.write(prefix);
     else if (!R.frozen && R.evaluations % 1024 == 0)
